@@ -1225,6 +1225,12 @@ class Builder:
                         isinstance(x, tuple) and x and x[0] == "star" for x in args[0][1]) and (args[0][1] or len(args) == 2):
                     # next(...) of a statically known sequence (an unrolled generator): its first element, or the default
                     return args[0][1][0] if args[0][1] else args[1]
+                if q == "type" and len(args) == 1 and not kwargs:
+                    # type(x) of a value whose class is known (self, an annotated parameter, a constructed record) is that class object:
+                    # `type(self)(**fields)` is a construction
+                    tci = self.type_of(args[0])
+                    if tci is not None:
+                        return ("global", tci.qualname)
                 if q == "map" and len(args) >= 2 and not kwargs:
                     # map(f, xs, ys, ...) over statically known sequences is the sequence of the element-wise applications
                     cols = [self.static_elems(a_) for a_ in args[1:]]
